@@ -273,7 +273,8 @@ theorem attach_welcome_sent {fx : Facts} {rt : RouterCfg} {env : Env} {d : Nat} 
     (h : (attach fx rt env (⟨d, .msg (.hello realm details)⟩ :: rest)).outcome = .welcome sid sess w)
     (hav : RealmAvailable rt realm rc created) :
     (attach fx rt env (⟨d, .msg (.hello realm details)⟩ :: rest)).sent =
-        (authClient fx rc env (helloDetails env details) rest).sent ++ [.welcome sid w] ∧
+        (authClient fx rc env (helloDetails env details) rest).sent ++
+          (if fx.welcomeNonBlocking && env.challengeBlocked then [] else [.welcome sid w]) ∧
       (attach fx rt env (⟨d, .msg (.hello realm details)⟩ :: rest)).created = created ∧
       (attach fx rt env (⟨d, .msg (.hello realm details)⟩ :: rest)).rest =
         (authClient fx rc env (helloDetails env details) rest).rest := by
@@ -289,7 +290,10 @@ theorem attach_welcome_sent {fx : Facts} {rt : RouterCfg} {env : Env} {d : Nat} 
   obtain ⟨e1, e2⟩ := hl'
   subst e1; subst e2
   have hre' : (realm == "") = false := by simpa using hre
-  simp [attach, recvTimeout, hd, hre', hl, attachRealm, hrole, hauth, hcl, hsid]
+  simp only [attach, recvTimeout, hd, if_true, hre', Bool.false_eq_true, if_false, hl, attachRealm, hrole,
+    Bool.not_true, hauth, hcl, hsid]
+  refine ⟨?_, trivial, trivial⟩
+  split <;> simp
 
 theorem authClient_via_sent {fx : Facts} {rc : RealmCfg} {env : Env} {details : Dict}
     {script : List Arrival} {a : Authr} {method : String}
